@@ -63,9 +63,27 @@ func VerifC19Report() {
 	var z node.Type
 	var zText, class string
 	fails := true
+	// the failing operation: 10 / v, 10 % v, 10 < v, [7, 8][v]
+	opk := vrt.Choice("operation", 4)
+	opName := [...]string{" DIV ", " MOD ", " LT ", " IX1 "}[opk]
+	left := [...]string{"10", "10", "10", "[7, 8]"}[opk]
+	var failing node.Type
+	switch opk {
+	case 0:
+		failing = bin("/", ilit(10), nm("v"))
+	case 1:
+		failing = bin("%", ilit(10), nm("v"))
+	case 2:
+		failing = bin("<", ilit(10), nm("v"))
+	default:
+		failing = node.IndexAt{Ary: lst(ilit(7), ilit(8)), At: nm("v")}
+	}
 	switch vrt.Choice("operand", 5) {
 	case 0:
 		z, zText, class = ilit(0), "0", "division by zero"
+		if opk >= 2 {
+			class, fails = "", false // 10 < 0 and [7, 8][0] are fine
+		}
 	case 1:
 		z, zText, class = node.Bool(true), "true", "type error"
 	case 2:
@@ -74,10 +92,13 @@ func VerifC19Report() {
 		z, zText, class = str("a fairly long string value"), "a fairly long string value", "type error"
 	default:
 		z, zText, class, fails = ilit(5), "5", "", false
+		if opk == 3 {
+			class, fails = "index error", true
+		}
 	}
 	p.steps("defs", false,
-		asg("fail", fn(bin("/", ilit(10), nm("v")), "v")),
-		asg("wrapf", fn(bin("+", call("fail", nm("v")), nm("w")), "v", "w")),
+		asg("fail", fn(failing, "v")),
+		asg("wrapf", fn(lst(call("fail", nm("v")), nm("w")), "v", "w")),
 		asg("app", fn(call("g", nm("x")), "g", "x")),
 		asg("bad", fn(blk(yld(ilit(1)), call("fail", nm("v")), yld(ilit(2))), "v")),
 		asg("early", fn(blk(call("fail", nm("v")), yld(ilit(1))), "v")),
@@ -111,7 +132,16 @@ func VerifC19Report() {
 		prog = blk(forl("e", call("cnt", ilit(1)), ilit(0)), forl("e", call("early", z), nm("e")))
 		want = [][]string{{"fail() args: " + a0, "early() args: " + a0}, {}}
 	default: // top level
-		prog = bin("/", ilit(10), z)
+		switch opk {
+		case 0:
+			prog = bin("/", ilit(10), z)
+		case 1:
+			prog = bin("%", ilit(10), z)
+		case 2:
+			prog = bin("<", ilit(10), z)
+		default:
+			prog = node.IndexAt{Ary: lst(ilit(7), ilit(8)), At: z}
+		}
 		want = [][]string{{}}
 	}
 	vrt.Note("program", Src(prog))
@@ -130,8 +160,8 @@ func VerifC19Report() {
 	vrt.Assert(len(r.marked) == 1, "exactly-one-instruction-marked")
 	if len(r.marked) == 1 {
 		m := r.marked[0]
-		vrt.Assert(strings.Contains(m, " DIV "), "marked-instruction-is-the-failing-operation")
-		vrt.Assert(strings.HasSuffix(m, "; 10, "+abbrev(zText)), "marked-instruction-shows-the-operand-values")
+		vrt.Assert(strings.Contains(m, opName), "marked-instruction-is-the-failing-operation")
+		vrt.Assert(strings.HasSuffix(m, "; "+left+", "+abbrev(zText)), "marked-instruction-shows-the-operand-values")
 	}
 	vrt.Assert(len(r.contexts) == len(want), "one-stack-per-context-failing-context-first")
 	for i := range want {
